@@ -210,6 +210,18 @@ Section Proofs.
     intros Hsh Hc Hf. rewrite nb_roundtrip_unfold. unfold nb_shape_fits in Hf.
     rewrite (map_wrap_fits _ _ Hf), (coo_ctor_boxpath c Hsh Hc). reflexivity.
   Qed.
+
+  Lemma numba_construct_partial_proof (zero : V) dt (c : coo V) :
+    forallb (fun d => 0 <=? d) (c_shape c) = true -> canonicalb c = true -> c_fill c = zero ->
+    nb_construct_typed dt (c_shape c) = true ->
+    nb_construct V zero dt c = Ok (ACoo c).
+  Proof.
+    intros Hsh Hc Hf Ht. unfold nb_construct. rewrite Ht.
+    change (nb_box V [(s_coords, FMat (len (c_shape c)) (c_coords c)); (s_data, FData (c_data c));
+                      (s_shape, FInts (c_shape c)); (s_fill, FScalar zero)])
+      with (c' <- coo_ctor V false true (c_shape c) (len (c_shape c)) (c_coords c) (c_data c) zero ;; Ok (ACoo c')).
+    rewrite <- Hf, (coo_ctor_boxpath c Hsh Hc). reflexivity.
+  Qed.
 End Proofs.
 
 (* ---------------------------------------------------------------------- witnesses (V := Z) *)
@@ -217,7 +229,7 @@ End Proofs.
 Definition w_gcxs_1d : arr Z := AGcxs KGCXS (mkGCXS [6] None [5; 6] [1; 2] [] 0).
 (* CSR [[0,5,0],[0,0,6]]: only data / shape / fill_value are written *)
 Definition w_csr : arr Z := AGcxs KCSR (mkGCXS [2; 3] (Some [0]) [5; 6] [1; 2] [0; 1; 2] 0).
-Definition w_csc : arr Z := AGcxs KCSC (mkGCXS [2; 3] (Some [1]) [5; 6] [1; 2] [0; 0; 1; 2] 0).
+Definition w_csc : arr Z := AGcxs KCSC (mkGCXS [2; 3] (Some [1]) [5; 6] [0; 1] [0; 0; 1; 2] 0).
 (* in-domain examples *)
 Definition w_coo : arr Z := ACoo (mkCOO [2; 3] [[0; 1]; [1; 2]] [5; 6] 3).
 Definition w_coo_0d : arr Z := ACoo (mkCOO [] [[]] [7] 0).
@@ -638,3 +650,10 @@ Section ContainerProofs.
     unfold load_npz. destruct (np_load b) as [ms |]; cbn [load_file]; [eauto | discriminate].
   Qed.
 End ContainerProofs.
+
+(* the in-Numba constructor does not compile for a 0-d shape *)
+Lemma numba_construct_refuted_proof :
+  exists c : coo Z,
+    forallb (fun d => 0 <=? d) (c_shape c) = true /\ canonicalb c = true /\ c_fill c = 0 /\
+    nb_construct Z 0 (64, true) c = Raise TypeError.
+Proof. exists (mkCOO [] [[]] [7] 0). repeat split. Qed.
